@@ -46,6 +46,11 @@ ClientDependsOnlyOnCommon == stage = "generated" => \A p \in Parts : client[p]
 ClientSameK == stage = "generated" => \A p \in Parts : client[p] \/ (p = "input_required_and_defaults" /\ "defaults_from_ast_only" \in Deviations
                                                                       /\ src \in {"introspection", "introspection_descriptions"})
 
+\* configured header values (settings.resolve_headers): a value that is exactly "$NAME" is a reference to the environment,
+\* anything else -- also a value with a "$" in the middle ("k3y$Secret9", "Bearer $TOKEN") -- is a literal and is sent verbatim
+HeaderKinds == {"plain", "env_reference", "dollar_inside", "double_dollar", "prefix_then_reference"}
+SentHeader(k) == IF k = "env_reference" THEN "value_of_the_variable" ELSE "the_configured_text"
+
 \* ---- part 2: introspect_remote_schema ------------------------------------------------------------------------
 Responses == [url : {"ok", "invalid", "bad_scheme"}, status : {200, 201, 301, 404, 500}, body : {"nonjson", "nonjson_empty", "nonjson_latin1", "nonjson_binary", "nonjson_truncated", "array", "null", "no_data", "errors_only", "errors_and_data",
                                                                                      "errors_empty_and_data", "data_null", "data_list", "data"}]
